@@ -490,3 +490,159 @@ func GenGroupIDs(r *gen.R, b *Block, kind, n int, counter *int64, o GenOpts) *Gr
 	*counter = c.n
 	return g
 }
+
+// Wilden rewrites, with probability p per element, values of a generated file into the
+// unusual-but-valid corners of the format: ids that are zero, negative, beyond 2^40, equal to
+// or below their predecessor (history files, unsorted files), metadata at the ends of their
+// integer types, very long strings, duplicate tag keys, long tag / ref / member lists. Ids are
+// no longer unique afterwards, so it is for checks that compare by position only.
+func Wilden(r *gen.R, f *File, p float64) {
+	wildID := func(prev int64) int64 {
+		switch r.Intn(8) {
+		case 0:
+			return 0
+		case 1:
+			return -int64(r.Range(1, 1<<20))
+		case 2:
+			return 1<<40 + int64(r.Range(0, 1000))
+		case 3:
+			return 1<<62 + int64(r.Range(0, 1000))
+		case 4:
+			return prev // the same element again (another version of it)
+		case 5:
+			return prev - int64(r.Range(1, 1000)) // unsorted
+		case 6:
+			return -(1 << 62)
+		}
+		return int64(r.Range(1, 3))
+	}
+	longStr := func() string {
+		n := r.Pick(300, 4000, 70000)
+		unit := r.StrNonEmpty(6) // arbitrary UTF-8; the result is cut at a rune boundary
+		var sb strings.Builder
+		for sb.Len()+len(unit) <= n {
+			sb.WriteString(unit)
+		}
+		return sb.String()
+	}
+	wildTags := func(ts []Tag) []Tag {
+		switch r.Intn(4) {
+		case 0:
+			return append(ts, Tag{"note", longStr()})
+		case 1:
+			k := "dup" + r.Word()
+			return append(ts, Tag{k, "first"}, Tag{k, "second"}, Tag{k, "first"})
+		case 2:
+			for i := 0; i < 300; i++ {
+				ts = append(ts, Tag{fmt.Sprintf("k%d", i), r.Word()})
+			}
+			return ts
+		}
+		return append(ts, Tag{"empty-value", ""}, Tag{" ", " "})
+	}
+	wildInfo := func(in *Info) {
+		if in == nil {
+			return
+		}
+		if in.Version != nil {
+			*in.Version = int32(r.Pick(65535, 65536, 1<<31-1))
+		}
+		if in.UID != nil {
+			*in.UID = int32(r.Pick(-1, 0, 1<<31-1))
+		}
+		if in.Changeset != nil {
+			*in.Changeset = int64(1)<<uint(r.Pick(31, 32, 40, 62)) + int64(r.Intn(3))
+		}
+		if in.User != nil && r.Chance(0.3) {
+			*in.User = longStr()
+		}
+	}
+	for _, b := range f.Blocks {
+		for _, g := range b.Groups {
+			switch g.Kind {
+			case KDense:
+				var prev int64
+				for i := range g.Dense.Nodes {
+					x := &g.Dense.Nodes[i]
+					if r.Chance(p) {
+						x.ID = wildID(prev)
+						if g.Dense.HasVersion {
+							x.Version = int32(r.Pick(65535, 65536, 1<<31-1))
+						}
+						if g.Dense.HasUID {
+							x.UID = int32(r.Pick(-1, 0, 1<<31-1))
+						}
+						if g.Dense.HasChangeset {
+							x.Changeset = int64(1)<<uint(r.Pick(31, 32, 40, 62)) + int64(r.Intn(3))
+						}
+						if g.Dense.HasKeyVals && r.Chance(0.5) {
+							x.Tags = wildTags(x.Tags)
+						}
+						if g.Dense.HasUserSID && r.Chance(0.2) {
+							x.User = longStr()
+						}
+					}
+					prev = x.ID
+				}
+			case KWays:
+				var prev int64
+				for _, w := range g.Ways {
+					if r.Chance(p) {
+						w.ID = wildID(prev)
+						wildInfo(w.Info)
+						if w.HasTags && r.Chance(0.5) {
+							w.Tags = wildTags(w.Tags)
+						}
+						if w.HasRefs && len(w.Refs) > 0 && !w.HasLoc {
+							switch r.Intn(3) {
+							case 0:
+								for j := range w.Refs {
+									w.Refs[j] = wildID(int64(j))
+								}
+							case 1:
+								w.Refs = make([]int64, 2000)
+								for j := range w.Refs {
+									w.Refs[j] = int64(1)<<33 - int64(j)*int64(r.Range(1, 5))
+								}
+							default:
+								for j := range w.Refs {
+									w.Refs[j] = w.Refs[0] // a way through one node again and again
+								}
+							}
+						}
+					}
+					prev = w.ID
+				}
+			case KRelations:
+				var prev int64
+				for _, rel := range g.Relations {
+					if r.Chance(p) {
+						rel.ID = wildID(prev)
+						wildInfo(rel.Info)
+						if rel.HasTags && r.Chance(0.5) {
+							rel.Tags = wildTags(rel.Tags)
+						}
+						if rel.HasMembers {
+							switch r.Intn(3) {
+							case 0:
+								for j := range rel.Members {
+									rel.Members[j].ID = wildID(int64(j))
+								}
+							case 1:
+								for j := 0; j < 3000; j++ {
+									rel.Members = append(rel.Members, Member{Role: []string{"", "outer", "inner"}[j%3], ID: int64(j) * 7 % 1000, Type: int32(j % 3)})
+								}
+							default:
+								if len(rel.Members) > 0 {
+									rel.Members[0].Role = longStr()
+									rel.Members = append(rel.Members, rel.Members[0], rel.Members[0])
+								}
+							}
+						}
+					}
+					prev = rel.ID
+				}
+			}
+		}
+	}
+}
